@@ -59,6 +59,10 @@ def queries(tier):
             qs.append(Query("id-alloc-%d.%d-%s" % (lo, hi, tag), "c18/idhash_step.c", env=IENV, tus=["core/list.c"],
                             defs={"HIST": hs, "OP": 5, "LO": lo, "HI": hi, "EXPECT_FULL": int(len(h) > hi - lo)}, unwind=34, timeout=300,
                             params={"structure": "idhash", "op": "alloc", "range": [lo, hi], "history": hs}))
+            if (lo, hi) != (7, 10):
+                qs.append(Query("id-alloc32-%d.%d-%s" % (lo, hi, tag), "c18/idhash_step.c", env=IENV, tus=["core/list.c"],
+                                defs={"HIST": hs, "OP": 5, "LO": lo, "HI": hi, "EXPECT_FULL": int(len(h) > hi - lo), "ALLOC32": 1}, unwind=34, timeout=300,
+                                params={"structure": "idhash", "op": "alloc32", "range": [lo, hi], "history": hs}))
     for lo, hi, name in ((0x80000000, 0xffffffff, "reqid"), (1, 0x7fffffff, "pipeid"), (0, 0, "default")):
         for h in ([], ["S(%d)" % (hi if hi else 0xffffffff)]):
             hs = " ".join(h)
